@@ -1,7 +1,11 @@
 (* C10 -- AArch64 parser recovers every line and operand exactly as written: property theorems.
-   Model: Model/LexA64.v, ParseA64.v, ParseFileA64.v, SyntaxA64.v.  See notes/C10.md for what is
-   proved universally, what is refuted (with witness lines that are findings) and what is only
-   instance-checked by the correspondence harness. *)
+   Model: Model/LexA64.v, ParseA64.v, ParseFileA64.v, SyntaxA64.v.  The model is parameterised by the
+   configuration `fx : fixes` = which of the four repairs patches/C10-fix-*.diff the tree under test contains
+   (fx_none = the parser as found, fx_all = all four applied); checks/c10.py decides the configuration from the
+   implementation's behaviour on the witness lines and holds exactly that instance against it.  Every theorem
+   below is proved for ALL configurations unless it names one.  See notes/C10.md for what is proved
+   universally, what is refuted (with witness lines that are findings against a tree lacking the repair) and
+   what is only instance-checked by the correspondence harness. *)
 From Coq Require Import String Ascii List Bool Arith NArith ZArith Sorted.
 From OV Require Import Model.LexA64 Model.ParseA64 Model.ParseFileA64 Model.SyntaxA64.
 From OV Require Import Proofs.ParseA64File Proofs.ParseA64Classify Proofs.ParseA64Round.
@@ -9,38 +13,38 @@ From OV Require Import Proofs.ParseA64Lex Proofs.ParseA64Regs Proofs.ParseA64Ops
 Import ListNotations.
 Open Scope string_scope.
 
-(* ---------------------------------------------------------------- parse_file (complete, all files) *)
-Theorem parse_file_lines : forall content start,
-  map f_number (parse_file content start) = map (fun i => i + 1 + start) (nonblank_positions (split_nl content)).
+(* ---------------------------------------------------------------- parse_file (complete, all files, all configurations) *)
+Theorem parse_file_lines : forall fx content start,
+  map f_number (parse_file fx content start) = map (fun i => i + 1 + start) (nonblank_positions (split_nl content)).
 Proof. exact ParseA64File.parse_file_lines. Qed.
 Print Assumptions parse_file_lines.
 
-Theorem parse_file_text : forall content start,
-  map f_text (parse_file content start) = filter (fun l => negb (blank l)) (split_nl content).
+Theorem parse_file_text : forall fx content start,
+  map f_text (parse_file fx content start) = filter (fun l => negb (blank l)) (split_nl content).
 Proof. exact ParseA64File.parse_file_text. Qed.
 Print Assumptions parse_file_text.
 
-Theorem parse_file_count : forall content start,
-  length (parse_file content start) = length (filter (fun l => negb (blank l)) (split_nl content)).
+Theorem parse_file_count : forall fx content start,
+  length (parse_file fx content start) = length (filter (fun l => negb (blank l)) (split_nl content)).
 Proof. exact ParseA64File.parse_file_count. Qed.
 Print Assumptions parse_file_count.
 
-Theorem parse_file_sound : forall content start f,
-  In f (parse_file content start) ->
+Theorem parse_file_sound : forall fx content start f,
+  In f (parse_file fx content start) ->
   exists i, f_number f = i + 1 + start /\ nth_error (split_nl content) i = Some (f_text f) /\
-            blank (f_text f) = false /\ f_parsed f = parse_line (f_text f).
+            blank (f_text f) = false /\ f_parsed f = parse_line fx (f_text f).
 Proof. exact ParseA64File.parse_file_sound. Qed.
 Print Assumptions parse_file_sound.
 
-Theorem parse_file_complete : forall content start i l,
+Theorem parse_file_complete : forall fx content start i l,
   nth_error (split_nl content) i = Some l -> blank l = false ->
-  In (mkfline (i + 1 + start) l (parse_line l)) (parse_file content start).
+  In (mkfline (i + 1 + start) l (parse_line fx l)) (parse_file fx content start).
 Proof. exact ParseA64File.parse_file_complete. Qed.
 Print Assumptions parse_file_complete.
 
 (* strictly increasing numbers: no file line is returned twice *)
-Theorem parse_file_increasing : forall content start,
-  StronglySorted lt (map f_number (parse_file content start)).
+Theorem parse_file_increasing : forall fx content start,
+  StronglySorted lt (map f_number (parse_file fx content start)).
 Proof. exact ParseA64File.parse_file_increasing. Qed.
 Print Assumptions parse_file_increasing.
 
@@ -50,23 +54,23 @@ Theorem split_lines_exact : forall s,
 Proof. intro s. split; [apply split_join | apply split_no_nl]. Qed.
 Print Assumptions split_lines_exact.
 
-Example parse_file_nonvacuous :
-  map (fun f => (f_number f, f_text f)) (parse_file ("  add x1, x2, x3" ++ nl ++ nl ++ "  " ++ nl ++ ".L1: // c" ++ nl) 0)
+Example parse_file_nonvacuous : forall fx,
+  map (fun f => (f_number f, f_text f)) (parse_file fx ("  add x1, x2, x3" ++ nl ++ nl ++ "  " ++ nl ++ ".L1: // c" ++ nl) 0)
   = [(1, "  add x1, x2, x3"); (4, ".L1: // c")].
-Proof. vm_compute. reflexivity. Qed.
+Proof. intros fx. vm_compute. reflexivity. Qed.
 
-(* ---------------------------------------------------------------- classification (complete, all lines) *)
-Theorem classify_exclusive : forall line r, parse_line line = Parsed r -> kind_count r = 1.
+(* ---------------------------------------------------------------- classification (complete, all lines, all configurations) *)
+Theorem classify_exclusive : forall fx line r, parse_line fx line = Parsed r -> kind_count r = 1.
 Proof. exact classify_exclusive_model. Qed.
 Print Assumptions classify_exclusive.
 
-Example classify_nonvacuous :
+Example classify_nonvacuous : forall fx,
   exists r1 r2 r3 r4,
-    parse_line "// hi" = Parsed r1 /\ is_comment r1 = true /\
-    parse_line ".L3:" = Parsed r2 /\ is_label r2 = true /\
-    parse_line ".align 4" = Parsed r3 /\ is_directive r3 = true /\
-    parse_line "ldr x0, [x1, x2, lsl #3]" = Parsed r4 /\ is_instruction r4 = true.
-Proof. do 4 eexists. vm_compute. repeat split; reflexivity. Qed.
+    parse_line fx "// hi" = Parsed r1 /\ is_comment r1 = true /\
+    parse_line fx ".L3:" = Parsed r2 /\ is_label r2 = true /\
+    parse_line fx ".align 4" = Parsed r3 /\ is_directive r3 = true /\
+    parse_line fx "ldr x0, [x1, x2, lsl #3]" = Parsed r4 /\ is_instruction r4 = true.
+Proof. intros [[] [] [] []]; do 4 eexists; vm_compute; repeat split; reflexivity. Qed.
 
 (* ---------------------------------------------------------------- pieces of the round trip proved for all inputs *)
 (* every decimal or hexadecimal numeral, either sign, is read as the integer it denotes *)
@@ -91,63 +95,67 @@ Theorem range_expansion : forall first lo hi,
 Proof. intros. split; [apply range_members_length | apply range_members_nth]. Qed.
 Print Assumptions range_expansion.
 
-Theorem label_line_tokens : forall n c, is_ident n = true ->
-  parse_toks (toks_line (WLLabel n c)) = Parsed (denote (WLLabel n c)).
+Theorem label_line_tokens : forall fx n c, is_ident n = true ->
+  parse_toks fx (toks_line (WLLabel n c)) = Parsed (denote (WLLabel n c)).
 Proof. exact tokens_label_line. Qed.
 Print Assumptions label_line_tokens.
 
-Theorem comment_line_tokens : forall raw, parse_toks (toks_line (WLComment raw)) = Parsed (denote (WLComment raw)).
+Theorem comment_line_tokens : forall fx raw, parse_toks fx (toks_line (WLComment raw)) = Parsed (denote (WLComment raw)).
 Proof. exact tokens_comment_line. Qed.
 Print Assumptions comment_line_tokens.
 
-(* ---------------------------------------------------------------- the full round trip is FALSE of the faithful model *)
-Definition roundtrip_holds (l : wline) (lay : list string) (trail : string) : Prop :=
-  parse_line (render lay trail l) = Parsed (denote l).
+(* ---------------------------------------------------------------- the full-strength round trip is FALSE of every
+   configuration that lacks a repair: `wline_okb fx_all` is the language of the property, any layout.  The four
+   witness lines are findings against a tree in which the corresponding repair is missing (checks/c10.py replays
+   them on the implementation on every run). *)
+Definition roundtrip_holds (fx : fixes) (l : wline) (lay : list string) (trail : string) : Prop :=
+  parse_line fx (render lay trail l) = Parsed (denote l).
+Definition full_refuted (fx : fixes) : Prop :=
+  exists l lay trail, wline_okb fx_all l = true /\ layout_okb lay trail l = true /\ ~ roundtrip_holds fx l lay trail.
 Definition X (n : nat) : wop := WReg (RPlain (mkwreg "x"%char n None)).
 
 (* `cbz x1, lsl_loop`: the label is swallowed as a shift of x1 *)
-Theorem roundtrip_refuted_label_after_operand :
-  exists l lay trail, wline_okb true l = true /\ layout_okb lay trail l = true /\ ~ roundtrip_holds l lay trail.
+Definition w_label := WLInstr "cbz" [X 1; WIdent false "lsl_loop"] None.
+Theorem roundtrip_refuted_label_after_operand : forall fx, fx_word fx = false -> full_refuted fx.
 Proof.
-  exists (WLInstr "cbz" [X 1; WIdent false "lsl_loop"] None), [""; " "; ""; " "], "".
+  intros [a b c d] H. simpl in H. subst a. exists w_label, [""; " "; ""; " "], "".
   split; [vm_compute; reflexivity|]. split; [vm_compute; reflexivity|].
-  unfold roundtrip_holds. vm_compute. discriminate.
+  unfold roundtrip_holds. destruct b, c, d; vm_compute; discriminate.
 Qed.
 Print Assumptions roundtrip_refuted_label_after_operand.
 
 (* `csel x0, x1, x2, ne ` (white space after the condition code): an identifier is returned *)
-Theorem roundtrip_refuted_condition_space :
-  exists l lay trail, wline_okb true l = true /\ layout_okb lay trail l = true /\ ~ roundtrip_holds l lay trail.
+Definition w_cond := WLInstr "csel" [X 0; X 1; X 2; WCond "ne"] (Some " c").
+Theorem roundtrip_refuted_condition_space : forall fx, fx_cond fx = false -> full_refuted fx.
 Proof.
-  exists (WLInstr "csel" [X 0; X 1; X 2; WCond "ne"] (Some " c")), [""; " "; ""; " "; ""; " "; ""; " "; " "], "".
+  intros [a b c d] H. simpl in H. subst b. exists w_cond, [""; " "; ""; " "; ""; " "; ""; " "; " "], "".
   split; [vm_compute; reflexivity|]. split; [vm_compute; reflexivity|].
-  unfold roundtrip_holds. vm_compute. discriminate.
+  unfold roundtrip_holds. destruct a, c, d; vm_compute; discriminate.
 Qed.
 Print Assumptions roundtrip_refuted_condition_space.
 
 (* `ldr x0, [x1, x2, sxtx #3]`: scale 1 instead of 2^3, the extend is lost *)
-Theorem roundtrip_refuted_sxtx :
-  exists l lay trail, wline_okb true l = true /\ layout_okb lay trail l = true /\ ~ roundtrip_holds l lay trail.
+Definition w_sxtx := WLInstr "ldr" [X 0; WMem (BX false 1) (MTIdx "x"%char 2 (Some (mkwext "sxtx" (Some (true, mknum false false "3"))))) MCNone] None.
+Theorem roundtrip_refuted_sxtx : forall fx, fx_sxtx fx = false -> full_refuted fx.
 Proof.
-  exists (WLInstr "ldr" [X 0; WMem (BX false 1) (MTIdx "x"%char 2 (Some (mkwext "sxtx" (Some (true, mknum false false "3"))))) MCNone] None),
-         [""; " "; ""; " "; ""; ""; " "; ""; " "; " "; ""; ""; ""], "".
+  intros [a b c d] H. simpl in H. subst c. exists w_sxtx, [""; " "; ""; " "; ""; ""; " "; ""; " "; " "; ""; ""; ""], "".
   split; [vm_compute; reflexivity|]. split; [vm_compute; reflexivity|].
-  unfold roundtrip_holds. vm_compute. discriminate.
+  unfold roundtrip_holds. destruct a, b, d; vm_compute; discriminate.
 Qed.
 Print Assumptions roundtrip_refuted_sxtx.
 
 (* `.word foo // a,!)`: not classified as a directive *)
-Theorem roundtrip_refuted_directive_comment :
-  exists l lay trail, wline_okb true l = true /\ layout_okb lay trail l = true /\ ~ roundtrip_holds l lay trail.
+Definition w_dir := WLDirective "word" ["foo"] (Some " a,!)").
+Theorem roundtrip_refuted_directive_comment : forall fx, fx_dir fx = false -> full_refuted fx.
 Proof.
-  exists (WLDirective "word" ["foo"] (Some " a,!)")), [""; " "; " "], "".
+  intros [a b c d] H. simpl in H. subst d. exists w_dir, [""; " "; " "], "".
   split; [vm_compute; reflexivity|]. split; [vm_compute; reflexivity|].
-  unfold roundtrip_holds. vm_compute. discriminate.
+  unfold roundtrip_holds. destruct a, b, c; vm_compute; discriminate.
 Qed.
 Print Assumptions roundtrip_refuted_directive_comment.
 
-(* ---------------------------------------------------------------- THE ROUND TRIP, for all trees and all layouts
-   Sub-language (wline_okb false, Model/SyntaxA64.v), every line kind:
+(* ---------------------------------------------------------------- THE ROUND TRIP, for all configurations, all trees, all layouts
+   Sub-language (wline_okb fx, Model/SyntaxA64.v), every line kind:
      instruction  mnemonic [A-Za-z0-9.]+ not starting with '.', 0-5 operands separated by commas, optional // comment;
        operands: scalar [xwbhsdq]N, vector/SVE [vz]N(.lanes?shape)?([idx])?, predicate pN(.lanes?shape | /z | /m)?
        (N = 0..31, either case), sp/wsp/xsp and wzr/xzr spellings, lists {r, r, ...}[idx]? and ranges {r - r}[idx]?,
@@ -155,13 +163,14 @@ Print Assumptions roundtrip_refuted_directive_comment.
        (not spelling a register/alias/condition code), condition codes (any case), memory [xN|sp (, '#'?imm | , (x|w)N (, ext ('#'?n)?)?)?]
        followed by '!' or ', '#'?imm';
      label  ident ':' comment?;  directive  '.'name word (, word)* comment?;  comment line.
-   EXCLUDED, visibly, by the hypotheses (each is refuted above and is a finding against the implementation):
-     noswallow_okb  - an identifier/condition code spelled with a shift-operator prefix directly after another operand (cbz x1, lsl_loop)
-     ext_words false - the extend sxtx (the implementation understands lsl, uxtw, sxtw, uxtb)
-     directive clause of wline_okb - a comment containing ',' after a parameter starting with a letter or '.'
-     cond_tight      - white space directly after a condition-code word
-   Further side conditions of wline_okb: memory operand last (order_okb), no condition code and no pld*/pst* identifier as first operand (first_okb),
-   shift amount a non-negative decimal, post-index by immediate only.
+   What a configuration EXCLUDES because it lacks a repair (each refuted above, each a finding against such a tree):
+     fx_word = false  noswallow_okb excludes an identifier/condition code spelled with a shift-operator PREFIX directly after another operand
+                      (cbz x1, lsl_loop); with the repair only one spelled exactly like a shift operator (cbz x1, lsl: ambiguous in this grammar)
+     fx_sxtx = false  ext_words lacks the extend sxtx
+     fx_dir  = false  the directive clause excludes a comment containing ',' after a parameter starting with a letter or '.'
+     fx_cond = false  cond_tight excludes white space directly after a condition-code word
+   Side conditions in every configuration: memory operand last (order_okb), no condition code and no pld*/pst* identifier as first operand
+   (first_okb), shift amount a non-negative decimal, post-index by immediate only.
    layout_okb: every lay_i and trail is white space (space, tab, CR); it is non-empty between two words,
    between a word ending an exponent mantissa and '-', between '-' and a digit, between '/' and '/'. *)
 Theorem lex_render : forall lay trail ts,
@@ -170,95 +179,240 @@ Theorem lex_render : forall lay trail ts,
 Proof. exact lex_render_tokens. Qed.
 Print Assumptions lex_render.
 
-Theorem parse_tokens_line : forall l, wline_okb false l = true -> parse_toks (toks_line l) = Parsed (denote l).
+Theorem parse_tokens_line : forall fx l, wline_okb fx l = true -> parse_toks fx (toks_line l) = Parsed (denote l).
 Proof. exact tokens_line. Qed.
 Print Assumptions parse_tokens_line.
 
+Theorem parse_render_line_fx : forall fx l lay trail,
+  wline_okb fx l = true -> layout_okb lay trail l = true -> cond_tight fx lay trail l = true ->
+  parse_line fx (render lay trail l) = Parsed (denote l).
+Proof. exact parse_render_fx. Qed.
+Print Assumptions parse_render_line_fx.
+
+(* the parser as found (configuration fx_none): the round trip on the sub-language that avoids the four defects *)
 Theorem parse_render_line_partial : forall l lay trail,
-  wline_okb false l = true -> layout_okb lay trail l = true -> cond_tight lay trail l = true ->
-  parse_line (render lay trail l) = Parsed (denote l).
-Proof. exact parse_render_partial. Qed.
+  wline_okb fx_none l = true -> layout_okb lay trail l = true -> cond_tight fx_none lay trail l = true ->
+  parse_line fx_none (render lay trail l) = Parsed (denote l).
+Proof. exact (parse_render_fx fx_none). Qed.
 Print Assumptions parse_render_line_partial.
+
+(* all four repairs applied (configuration fx_all): the FULL-STRENGTH round trip -- the whole language of the
+   property, every layout, no restriction left on white space after condition codes *)
+Theorem parse_render_line_full : forall l lay trail,
+  wline_okb fx_all l = true -> layout_okb lay trail l = true ->
+  parse_line fx_all (render lay trail l) = Parsed (denote l).
+Proof. intros l lay trail H1 H2. exact (parse_render_fx fx_all l lay trail H1 H2 eq_refl). Qed.
+Print Assumptions parse_render_line_full.
 
 (* the tokens of every well-formed line are lexable, so the layout hypothesis is spacing alone:
    white space only, non-empty where two tokens would otherwise fuse (sep_okb / clash) *)
-Theorem tokens_lexable : forall l, wline_okb false l = true -> toks_okb (toks_line l) = true.
+Theorem tokens_lexable : forall fx l, wline_okb fx l = true -> toks_okb (toks_line l) = true.
 Proof. exact toks_line_okb. Qed.
 Print Assumptions tokens_lexable.
 
-Theorem parse_render_line_spacing : forall l lay trail,
-  wline_okb false l = true -> spacing_okb lay trail l = true -> cond_tight lay trail l = true ->
-  parse_line (render lay trail l) = Parsed (denote l).
+Theorem parse_render_line_spacing : forall fx l lay trail,
+  wline_okb fx l = true -> spacing_okb lay trail l = true -> cond_tight fx lay trail l = true ->
+  parse_line fx (render lay trail l) = Parsed (denote l).
 Proof. exact parse_render_spacing. Qed.
 Print Assumptions parse_render_line_spacing.
 
+Theorem parse_render_line_full_spacing : forall l lay trail,
+  wline_okb fx_all l = true -> spacing_okb lay trail l = true ->
+  parse_line fx_all (render lay trail l) = Parsed (denote l).
+Proof. intros l lay trail H1 H2. exact (parse_render_spacing fx_all l lay trail H1 H2 eq_refl). Qed.
+Print Assumptions parse_render_line_full_spacing.
+
 (* the instruction-line instance: mnemonic and every operand recovered *)
 Theorem parse_render_instr_partial : forall mn ops c lay trail,
-  wline_okb false (WLInstr mn ops c) = true -> layout_okb lay trail (WLInstr mn ops c) = true ->
-  cond_tight lay trail (WLInstr mn ops c) = true ->
-  parse_line (render lay trail (WLInstr mn ops c)) =
+  wline_okb fx_none (WLInstr mn ops c) = true -> layout_okb lay trail (WLInstr mn ops c) = true ->
+  cond_tight fx_none lay trail (WLInstr mn ops c) = true ->
+  parse_line fx_none (render lay trail (WLInstr mn ops c)) =
   Parsed (mkpline (Some mn) (flat_map den_wop ops) None None (option_map comment_text c)).
-Proof. intros. apply (parse_render_partial (WLInstr mn ops c)); assumption. Qed.
+Proof. intros. apply (parse_render_fx fx_none (WLInstr mn ops c)); assumption. Qed.
 Print Assumptions parse_render_instr_partial.
 
+Theorem parse_render_instr_full : forall mn ops c lay trail,
+  wline_okb fx_all (WLInstr mn ops c) = true -> layout_okb lay trail (WLInstr mn ops c) = true ->
+  parse_line fx_all (render lay trail (WLInstr mn ops c)) =
+  Parsed (mkpline (Some mn) (flat_map den_wop ops) None None (option_map comment_text c)).
+Proof. intros. apply (parse_render_line_full (WLInstr mn ops c)); assumption. Qed.
+Print Assumptions parse_render_instr_full.
+
 (* consequence named by the property: a register index with shift amount n has scale 2^n *)
-Theorem scale_is_pow2 : forall mn b p k op h n c lay trail,
+Theorem scale_is_pow2 : forall fx mn b p k op h n c lay trail,
   let l := WLInstr mn [WMem b (MTIdx p k (Some (mkwext op (Some (h, n))))) c] None in
-  wline_okb false l = true -> layout_okb lay trail l = true -> cond_tight lay trail l = true ->
+  wline_okb fx l = true -> layout_okb lay trail l = true -> cond_tight fx lay trail l = true ->
   exists off bp bn ix pre post,
-    parse_line (render lay trail l) =
+    parse_line fx (render lay trail l) =
     Parsed (mkpline (Some mn) [OMem off bp bn ix (Z.pow 2 (num_value n)) pre post] None None None).
 Proof.
-  intros mn b p k op h n c lay trail l H1 H2 H3. rewrite (parse_render_partial l lay trail H1 H2 H3).
+  intros fx mn b p k op h n c lay trail l H1 H2 H3. rewrite (parse_render_fx fx l lay trail H1 H2 H3).
   unfold l. simpl. do 6 eexists. reflexivity.
 Qed.
 Print Assumptions scale_is_pow2.
 
+(* ---------------------------------------------------------------- the four repaired shapes, one positive theorem each:
+   what was refuted above holds of every configuration that contains the repair *)
+
+(* (a) fx_word: a label that merely starts with a shift operator is no longer shift-like; only the eight (seven without
+   fx_sxtx) operator words themselves and `mul` are, so `noswallow_okb` excludes nothing but `cbz x1, lsl` *)
+Lemma prefix_drop_eq : forall op w, prefix_of op (lower w) = true -> drop (String.length op) w = "" -> lower w = op.
+Proof.
+  induction op as [|a op IH]; intros w Hp Hd.
+  - simpl in Hd. subst w. reflexivity.
+  - destruct w as [|c w']; [discriminate|].
+    change (lower (String c w')) with (String (low c) (lower w')) in *. simpl in Hp, Hd.
+    apply andb_true_iff in Hp. destruct Hp as [Hc Hp]. apply Ascii.eqb_eq in Hc. subst a.
+    rewrite (IH w' Hp Hd). reflexivity.
+Qed.
+Theorem label_after_operand_repaired : forall fx w, fx_word fx = true ->
+  mem_str (lower w) (shift_ops fx) = false -> String.eqb (lower w) "mul" = false -> has_shift_prefix fx w = false.
+Proof.
+  intros fx w Hfx Hm Hmul. unfold has_shift_prefix. rewrite Hmul, orb_false_r. unfold shift_split. rewrite Hfx.
+  destruct (filter (fun op => prefix_of op (lower w)) (shift_ops fx)) as [|op r] eqn:E; [reflexivity|].
+  assert (Hin : In op (filter (fun op => prefix_of op (lower w)) (shift_ops fx))) by (rewrite E; left; reflexivity).
+  apply filter_In in Hin. destruct Hin as [Hin Hp].
+  destruct (drop (String.length op) w) eqn:Ed; [|reflexivity]. exfalso.
+  pose proof (prefix_drop_eq op w Hp Ed) as Heq.
+  assert (Hmem : mem_str (lower w) (shift_ops fx) = true).
+  { unfold mem_str. apply existsb_exists. exists op. split; [exact Hin|]. apply String.eqb_eq. exact Heq. }
+  rewrite Hmem in Hm. discriminate.
+Qed.
+Print Assumptions label_after_operand_repaired.
+(* ... hence `mnemonic reg, label` round-trips for every such label, under every layout the configuration admits *)
+Theorem roundtrip_label_after_operand : forall fx mn r w c lay trail,
+  let l := WLInstr mn [WReg r; WIdent false w] c in
+  fx_word fx = true -> mnemonic_ok mn = true -> head_is (ceq ".") mn = false -> wregop_okb r = true -> plain_ident w = true ->
+  mem_str (lower w) (shift_ops fx) = false -> String.eqb (lower w) "mul" = false -> comment_okb c = true ->
+  layout_okb lay trail l = true -> cond_tight fx lay trail l = true ->
+  parse_line fx (render lay trail l) = Parsed (mkpline (Some mn) [OReg (den_wregop r); OIdent w] None None (option_map comment_text c)).
+Proof.
+  intros fx mn r w c lay trail l Hfx Hmn Hdot Hr Hw Hm Hmul Hc Hlay Ht.
+  assert (Hl : wline_okb fx l = true).
+  { unfold l, wline_okb. rewrite Hmn, Hdot, Hc. cbn [length Nat.leb forallb wop_okb order_okb is_mem first_okb negb andb].
+    rewrite Hr, Hw. cbn [andb noswallow_okb swallows_shift is_mem negb shiftlike].
+    rewrite (label_after_operand_repaired fx w Hfx Hm Hmul). reflexivity. }
+  rewrite (parse_render_fx fx l lay trail Hl Hlay Ht). reflexivity.
+Qed.
+Print Assumptions roundtrip_label_after_operand.
+
+(* (b) fx_cond: no restriction on the white space after a condition code is left *)
+Theorem roundtrip_condition_space : forall fx l lay trail, fx_cond fx = true ->
+  wline_okb fx l = true -> layout_okb lay trail l = true -> parse_line fx (render lay trail l) = Parsed (denote l).
+Proof.
+  intros fx l lay trail Hfx H1 H2. apply (parse_render_fx fx l lay trail H1 H2). unfold cond_tight. rewrite Hfx. reflexivity.
+Qed.
+Print Assumptions roundtrip_condition_space.
+
+(* (c) fx_sxtx: every spelling of sxtx is an extend of the index register, and the scale is 2^n *)
+Theorem roundtrip_sxtx : forall fx mn b p k op h n c lay trail,
+  let l := WLInstr mn [WMem b (MTIdx p k (Some (mkwext op (Some (h, n))))) c] None in
+  fx_sxtx fx = true -> mem_str op (variants "sxtx") = true ->
+  mnemonic_ok mn = true -> head_is (ceq ".") mn = false -> wbase_okb b = true -> memb p ["x";"w";"X";"W"]%char = true -> Nat.ltb k 32 = true ->
+  num_okb n = true -> n_neg n = false -> n_hex n = false -> (match c with MCPost _ m => num_okb m | _ => true end) = true ->
+  layout_okb lay trail l = true -> cond_tight fx lay trail l = true ->
+  exists off pre post,
+    parse_line fx (render lay trail l) =
+    Parsed (mkpline (Some mn) [OMem off "x" (den_base_name b) (Some (mkmindex (s1 (low p)) (nat_str k) (Some "sxtx") (Some (num_word n))))
+                                    (Z.pow 2 (num_value n)) pre post] None None None).
+Proof.
+  intros fx mn b p k op h n c lay trail l Hfx Hop Hmn Hdot Hb Hp Hk Hn Hneg Hhex Hc Hlay Ht.
+  assert (Hext : mem_str op (ext_words fx) = true).
+  { unfold ext_words, ext_ops. rewrite Hfx. unfold mem_str in *. rewrite flat_map_app, existsb_app.
+    apply orb_true_iff. right. change (flat_map variants ["sxtx"]) with (variants "sxtx" ++ [])%list. rewrite app_nil_r. exact Hop. }
+  assert (Hlow : lower op = "sxtx").
+  { apply mem_str_In in Hop. vm_compute in Hop. repeat (destruct Hop as [<-|Hop]; [reflexivity|]). destruct Hop. }
+  assert (Hl : wline_okb fx l = true).
+  { unfold l, wline_okb. rewrite Hmn, Hdot. cbn [length Nat.leb forallb wop_okb order_okb first_okb comment_okb noswallow_okb andb negb].
+    rewrite Hb, Hp, Hk, Hc. cbn [andb wext_okb]. rewrite Hext, Hn, Hneg, Hhex. reflexivity. }
+  rewrite (parse_render_fx fx l lay trail Hl Hlay Ht). unfold l. cbn [denote flat_map den_wop app den_comment option_map].
+  rewrite Hlow. do 3 eexists. reflexivity.
+Qed.
+Print Assumptions roundtrip_sxtx.
+
+(* (d) fx_dir: a directive line is a directive line whatever its comment contains *)
+Theorem roundtrip_directive_comment : forall fx n ps c lay trail,
+  let l := WLDirective n ps c in
+  fx_dir fx = true -> dir_name_ok ("." ++ n) = true -> forallb (fun p => andb (dir_param_ok p) (sall is_wordch p)) ps = true ->
+  comment_okb c = true -> layout_okb lay trail l = true -> cond_tight fx lay trail l = true ->
+  parse_line fx (render lay trail l) = Parsed (mkpline None [] None (Some n) None).
+Proof.
+  intros fx n ps c lay trail l Hfx Hn Hps Hc Hlay Ht.
+  assert (Hl : wline_okb fx l = true) by (unfold l, wline_okb; rewrite Hn, Hps, Hc, Hfx; reflexivity).
+  rewrite (parse_render_fx fx l lay trail Hl Hlay Ht). reflexivity.
+Qed.
+Print Assumptions roundtrip_directive_comment.
+
 (* ---------------------------------------------------------------- non-vacuity: the hypotheses hold on one line per operand kind
    (levels a-e of the construction; each Example applies the theorem, vm_compute only discharges its boolean hypotheses) *)
-Definition inst (l : wline) (lay : list string) (trail : string) : Prop :=
-  wline_okb false l = true /\ layout_okb lay trail l = true /\ cond_tight lay trail l = true /\ roundtrip_holds l lay trail.
+Definition inst (fx : fixes) (l : wline) (lay : list string) (trail : string) : Prop :=
+  wline_okb fx l = true /\ layout_okb lay trail l = true /\ cond_tight fx lay trail l = true /\ roundtrip_holds fx l lay trail.
 Ltac inst := unfold inst, roundtrip_holds;
-  match goal with |- _ /\ _ /\ _ /\ parse_line (render ?lay ?trail ?l) = _ =>
-    assert (H1 : wline_okb false l = true) by (vm_compute; reflexivity);
+  match goal with |- _ /\ _ /\ _ /\ parse_line ?fx (render ?lay ?trail ?l) = _ =>
+    assert (H1 : wline_okb fx l = true) by (vm_compute; reflexivity);
     assert (H2 : layout_okb lay trail l = true) by (vm_compute; reflexivity);
-    assert (H3 : cond_tight lay trail l = true) by (vm_compute; reflexivity);
-    split; [exact H1 | split; [exact H2 | split; [exact H3 | exact (parse_render_line_partial l lay trail H1 H2 H3)]]] end.
+    assert (H3 : cond_tight fx lay trail l = true) by (vm_compute; reflexivity);
+    split; [exact H1 | split; [exact H2 | split; [exact H3 | exact (parse_render_line_fx fx l lay trail H1 H2 H3)]]] end.
 Definition sp1 (n : nat) : list string := repeat " " n.
 
 (* level a: mnemonic + scalar registers / aliases + immediates + labels *)
-Example rt_scalar_alias : inst (WLInstr "add" [WReg (RSp "SP"); WReg (RSp "wsp"); WReg (RZr "WZR"); X 30] None) (sp1 9) " ".
+Example rt_scalar_alias : inst fx_none (WLInstr "add" [WReg (RSp "SP"); WReg (RSp "wsp"); WReg (RZr "WZR"); X 30] None) (sp1 9) " ".
 Proof. inst. Qed.
-Example rt_immediates : inst (WLInstr "mov" [WInt true (mknum true true "1f"); WInt false (mknum false false "16");
+Example rt_immediates : inst fx_none (WLInstr "mov" [WInt true (mknum true true "1f"); WInt false (mknum false false "16");
                                             WFlt true (mkwfloat true "1" "25" (Some ("e"%char, "+"%char, "1")) (Some "f"%char));
                                             WFlt false (mkwfloat false "1" "5" None None)] None) (sp1 12) "".
 Proof. inst. Qed.
-Example rt_cond_label : inst (WLInstr "b.ne" [WIdent false ".L3"] None) (sp1 2) "" /\
-                        inst (WLInstr "csel" [X 0; X 1; X 2; WCond "NE"] None) [""; " "; ""; " "; ""; " "; ""; " "] "".
+Example rt_cond_label : inst fx_none (WLInstr "b.ne" [WIdent false ".L3"] None) (sp1 2) "" /\
+                        inst fx_none (WLInstr "csel" [X 0; X 1; X 2; WCond "NE"] None) [""; " "; ""; " "; ""; " "; ""; " "] "".
 Proof. split; inst. Qed.
 (* level b: vector / SVE / predicate registers *)
-Example rt_vector_pred : inst (WLInstr "fmla" [WReg (RPlain (mkwreg "v"%char 0 (Some ("4", "s"%char))));
+Example rt_vector_pred : inst fx_none (WLInstr "fmla" [WReg (RPlain (mkwreg "v"%char 0 (Some ("4", "s"%char))));
                                                WReg (RPredicated (mkwreg "p"%char 1 None) "m"%char);
                                                WReg (RIndexed (mkwreg "Z"%char 2 (Some ("", "D"%char))) "1")] None) (sp1 12) "".
 Proof. inst. Qed.
 (* level c: memory operands *)
-Example rt_memory : inst (WLInstr "ldr" [X 0; WMem (BSp "sp") (MTIdx "w"%char 2 (Some (mkwext "SXTW" (Some (true, mknum false false "3"))))) MCNone] None) (sp1 13) ""
-                 /\ inst (WLInstr "ldr" [X 0; WMem (BX false 1) (MTOff true (mknum true false "8")) MCPre] None) (sp1 9) ""
-                 /\ inst (WLInstr "ldr" [X 0; WMem (BX true 1) (MTIdx "x"%char 2 None) MCNone] None) (sp1 9) "".
+Example rt_memory : inst fx_none (WLInstr "ldr" [X 0; WMem (BSp "sp") (MTIdx "w"%char 2 (Some (mkwext "SXTW" (Some (true, mknum false false "3"))))) MCNone] None) (sp1 13) ""
+                 /\ inst fx_none (WLInstr "ldr" [X 0; WMem (BX false 1) (MTOff true (mknum true false "8")) MCPre] None) (sp1 9) ""
+                 /\ inst fx_none (WLInstr "ldr" [X 0; WMem (BX true 1) (MTIdx "x"%char 2 None) MCNone] None) (sp1 9) "".
 Proof. repeat split; inst. Qed.
 (* level d: register lists and ranges (with post-index) ; level e: trailing comment *)
-Example rt_list_range : inst (WLInstr "ld1" [WList [mkwreg "v"%char 0 (Some ("2","d"%char)); mkwreg "v"%char 1 (Some ("2","d"%char))] (Some "1");
+Example rt_list_range : inst fx_none (WLInstr "ld1" [WList [mkwreg "v"%char 0 (Some ("2","d"%char)); mkwreg "v"%char 1 (Some ("2","d"%char))] (Some "1");
                                              WRange (mkwreg "v"%char 4 (Some ("4","s"%char))) (mkwreg "v"%char 7 (Some ("4","s"%char))) None;
                                              WMem (BX false 0) MTNone (MCPost true (mknum false false "64"))] (Some " x  y ")) (sp1 30) "".
 Proof. inst. Qed.
-Example rt_scale_is_pow2 :
-  parse_line "ldr x0, [x1, x2, lsl #3]" =
+Example rt_scale_is_pow2 : forall fx,
+  parse_line fx "ldr x0, [x1, x2, lsl #3]" =
   Parsed (mkpline (Some "ldr") [OReg (plain "x" "0"); OMem MOffNone "x" "1" (Some (mkmindex "x" "2" (Some "lsl") (Some "3"))) 8 false None] None None None).
-Proof. vm_compute. reflexivity. Qed.
-Example rt_other_lines : inst (WLLabel ".L3" (Some " hi")) (sp1 3) "" /\ inst (WLDirective "p2align" ["4"; "15"] None) (sp1 4) "" /\
-                         inst (WLComment " a  b") (sp1 1) "".
+Proof. intros [[] [] [] []]; vm_compute; reflexivity. Qed.
+Example rt_other_lines : inst fx_none (WLLabel ".L3" (Some " hi")) (sp1 3) "" /\ inst fx_none (WLDirective "p2align" ["4"; "15"] None) (sp1 4) "" /\
+                         inst fx_none (WLComment " a  b") (sp1 1) "".
 Proof. repeat split; inst. Qed.
 (* the tightest and a loose layout of one line are both covered *)
-Example rt_layout_tight : inst (WLInstr "ldr" [X 0; WMem (BX false 1) (MTOff true (mknum false false "8")) MCPre] None) [""; " "] "" /\
+Example rt_layout_tight : inst fx_none (WLInstr "ldr" [X 0; WMem (BX false 1) (MTOff true (mknum false false "8")) MCPre] None) [""; " "] "" /\
   render [""; " "] "" (WLInstr "ldr" [X 0; WMem (BX false 1) (MTOff true (mknum false false "8")) MCPre] None) = "ldr x0,[x1,#8]!".
 Proof. split; [inst | vm_compute; reflexivity]. Qed.
+
+(* the four former refutation witnesses are instances of the full-strength theorem (configuration fx_all), and each is an
+   instance for the configuration that contains only its own repair; the repaired-shape theorems apply to them *)
+Example rt_full_witnesses :
+  inst fx_all w_label [""; " "; ""; " "] "" /\ inst fx_all w_cond [""; " "; ""; " "; ""; " "; ""; " "; " "] "" /\
+  inst fx_all w_sxtx [""; " "; ""; " "; ""; ""; " "; ""; " "; " "; ""; ""; ""] "" /\ inst fx_all w_dir [""; " "; " "] "" /\
+  render [""; " "; ""; " "] "" w_label = "cbz x1, lsl_loop" /\
+  render [""; " "; ""; " "; ""; " "; ""; " "; " "] "" w_cond = "csel x0, x1, x2, ne // c" /\
+  render [""; " "; ""; " "; ""; ""; " "; ""; " "; " "; ""; ""; ""] "" w_sxtx = "ldr x0, [x1, x2, sxtx #3]" /\
+  render [""; " "; " "] "" w_dir = ".word foo // a,!)".
+Proof. repeat split; try inst; vm_compute; reflexivity. Qed.
+Example rt_single_repairs :
+  inst (mkfx true false false false) w_label [""; " "; ""; " "] "" /\
+  inst (mkfx false true false false) w_cond [""; " "; ""; " "; ""; " "; ""; " "; " "] "" /\
+  inst (mkfx false false true false) w_sxtx [""; " "; ""; " "; ""; ""; " "; ""; " "; " "; ""; ""; ""] "" /\
+  inst (mkfx false false false true) w_dir [""; " "; " "] "".
+Proof. repeat split; inst. Qed.
+Example rt_repaired_shapes :
+  parse_line fx_all "tbnz w0, #3, lsr_x" = Parsed (mkpline (Some "tbnz") [OReg (plain "w" "0"); OImmInt 3; OIdent "lsr_x"] None None None) /\
+  parse_line fx_all ("csel x0, x1, x2, HI" ++ String "009"%char "") =
+    Parsed (mkpline (Some "csel") [OReg (plain "x" "0"); OReg (plain "x" "1"); OReg (plain "x" "2"); OCond "HI"] None None None) /\
+  parse_line fx_all "ldr x0, [sp, x2, SXTX 1]!" =
+    Parsed (mkpline (Some "ldr") [OReg (plain "x" "0"); OMem MOffNone "x" "sp" (Some (mkmindex "x" "2" (Some "sxtx") (Some "1"))) 2 true None] None None None) /\
+  parse_line fx_all ".set x, y // c," = Parsed (mkpline None [] None (Some "set") None).
+Proof. repeat split; vm_compute; reflexivity. Qed.
